@@ -709,14 +709,18 @@ def _tlc(cfg, stats, key, timeout=1500, **kw):
 
 
 def _sample(tr, n, rnd):
-    """seeded sample of n cases: lines that are accepted by the design or by an as-implemented automaton are the
-    minority of an enumeration, they get half of the sample"""
+    """seeded sample of n cases. Lines the design accepts are the minority of an enumeration: they get up to 45% of
+    the sample, lines only an as-implemented automaton accepts up to 20%, rejected lines the rest"""
     if len(tr) <= n:
         return tr
-    acc = [t for t in tr if t["exp"]["kind"] == "Accept" or any(x["out"]["kind"] == "Accept" for x in t["imp"])]
-    rej = [t for t in tr if not (t["exp"]["kind"] == "Accept" or any(x["out"]["kind"] == "Accept" for x in t["imp"]))]
-    na = min(len(acc), max(n // 2, n - len(rej)))
-    return rnd.sample(acc, na) + rnd.sample(rej, n - na)
+    acc = [t for t in tr if t["exp"]["kind"] == "Accept"]
+    imp = [t for t in tr if t["exp"]["kind"] != "Accept" and any(x["out"]["kind"] == "Accept" for x in t["imp"])]
+    rej = [t for t in tr if t["exp"]["kind"] != "Accept" and not any(x["out"]["kind"] == "Accept" for x in t["imp"])]
+    nr = min(len(rej), n - min(len(acc), n * 45 // 100) - min(len(imp), n * 20 // 100))
+    ni = min(len(imp), max(n * 20 // 100, 0))
+    na = min(len(acc), n - nr - ni)
+    ni = min(len(imp), n - nr - na)
+    return rnd.sample(acc, na) + rnd.sample(imp, ni) + rnd.sample(rej, n - na - ni)
 
 
 def gen_cases(tier, seed):
@@ -1029,3 +1033,19 @@ def replay(path, seed):
         print("KNOWN-FINDING: property=%s %s %s" % (PROP, ",".join(ids), det[:300]))
     print("replay passes")
     return 0
+
+
+SEEDS = ["accept_no_field", "unescape_drops_backslash", "reject_recovers", "bool_T_false", "empty_tag_skipped",
+         "tagval_equals_literal", "fsuffix_unvalidated", "quote_scan", "int_via_float64", "batch_last_line_decides"]
+
+
+def selftest(seed):
+    """every mutation seed / as-implemented deviation put into the DESIGN automaton must make TLC report a counterexample"""
+    missed = []
+    for dv in SEEDS:
+        r = vlib.run_tlc("LineProtocolMC", "LineProtocol.dev.%s.cfg" % dv, timeout=900)
+        hit = r["violated"] or (r["error"] if r["error"] and "BatchOK" in r["error"] else None)
+        print("seed %-28s -> %s" % (dv, hit or "NOT CAUGHT"))
+        if not hit:
+            missed.append(dv)
+    return 1 if missed else 0
